@@ -97,6 +97,8 @@ class Dataset:
         # --- spectrum coefficients
         self.a0 = np.log(rng.uniform(60.0, 1200.0, size=(nq, npm)))
         self.a1 = -rng.uniform(0.4, 2.2, size=(nq, npm))               # gamma at Vref = -a1
+        if s.get("nu_scale"):
+            self.a0 = self.a0 + np.log(s["nu_scale"])                  # the same spectrum, every frequency scaled by a common factor
         fam = s["family"]
         self.a2 = rng.uniform(-0.8, 0.8, size=(nq, npm)) if fam in ("poly2", "poly3") else np.zeros((nq, npm))
         self.a3 = rng.uniform(-1.0, 1.0, size=(nq, npm)) if fam in ("poly3", "generic") else np.zeros((nq, npm))
@@ -131,9 +133,23 @@ class Dataset:
         sv = np.sort(rng.uniform(vmin * 0.98, vmax * 1.02, size=self.nv_static))[::-1]
         sv[0], sv[-1] = vmax * 1.01, vmin * 0.99
         self.static_volumes = np.array([float("%.6f" % x) for x in np.sort(sv)[::-1]])
+        if s.get("static_vols") == "phonon-2dec":
+            # the static table tabulated at the phonon volumes, but printed with two decimals only (6 in the phonon file)
+            self.nv_static = nv
+            self.static_volumes = np.array([float("%.2f" % x) for x in np.sort(self.volumes)[::-1]])
+        elif s.get("static_vols") == "phonon":
+            self.nv_static = nv
+            self.static_volumes = np.array(np.sort(self.volumes)[::-1], dtype=float)
         self.system = s["system"]
         self.static_full = self._static_tensors(rng)                     # (nv_static, 21) in GPa, in W(system)
         self.static_keys, self.filled_keys = self._choose_keys(rng)
+        if s.get("tiny_coupling") and self.system in ("triclinic", "monoclinic") and not s["apply_system"]:
+            # one independent coupling beyond the orthotropic nine tabulated at 1e-5..1e-4 GPa (small but not zero)
+            cand = [k for k in self.static_keys if k not in ORTHO9]
+            if cand:
+                k = cand[int(np.random.default_rng(s["key_seed"] + 7).integers(0, len(cand)))]
+                self.static_full[:, KEYS21.index(k)] *= 1e-6
+                self.tiny_key = k
         # --- lattice block
         al = rng.uniform(0.15, 0.6, size=3)
         self.alpha = al / al.sum()
